@@ -18,6 +18,7 @@ import AioftpModel.Driver.Calendar
 import AioftpModel.Driver.ClientTree
 import AioftpModel.Driver.Backends
 import AioftpModel.Driver.Timers
+import AioftpModel.Driver.MemHandles
 
 open Codec Model Py
 
@@ -75,6 +76,7 @@ def handlePure : List String → Option String
   | "calendar" :: rest => handleCalendar rest
   | "ct" :: rest => DriverClientTree.handleClientTree rest
   | "timers" :: rest => DriverTimers.handleTimers rest
+  | "memh" :: rest => DriverMemHandles.handleMemHandles rest
   | _ => none
 
 def handle (st : DState) (line : String) : DState × String :=
